@@ -215,7 +215,7 @@ def replay(rec):
 
 LEVEL_TEXT = ("events.trigger executed symbolically for every combination of up to 3 notification handlers x {function, callable object} "
               "x {returns, raises} x {with, without bound args}: returns None, raises nothing, frame = assoc.abort only (restored). "
-              "Intervention events: exception propagates, abort restored; all 17 intervention call sites are inside a converting try/attempt.")
+              "Intervention events: exception propagates, abort restored; all 17 intervention call sites are inside a converting try/attempt. The conversion of intervention-handler exceptions into failure responses / rejections (C20/C21/C13 obligations on _wrap_handler, the single-response SCPs and _check_user_identity) is re-proved under this id.")
 LEVEL_NOTE = ("trusted: pyvc, Event() construction opaque, handler side effects excluded by assumption. Handler lists longer than 3 follow "
               "the same loop body (each iteration independent); stated, not an induction.")
 TECHNIQUE = "deductive: non-interference contract on events.trigger (AST->VC, exhaustive over handler behaviours) + AST frame scan of call sites"
